@@ -104,11 +104,12 @@ theorem C14_table_only_counterexample :
       (demoEnv (.int 1) t!"resources/subscribe" (some (.obj [(t!"uri", .str t!"verif://r")]))))).2.hasResult = true := by
   decide +kernel
 
-/-- Outside the statement: only stdio insists on `"jsonrpc": "2.0"` — the HTTP servers answer, stdio stays silent. -/
+/-- Outside the statement: only stdio insists on `"jsonrpc": "2.0"` — the HTTP servers answer with the result, stdio with
+    −32600 (Invalid Request). -/
 theorem C14_version_witness :
     let j : Json := .obj [(t!"jsonrpc", .str t!"1.0"), (t!"id", .int 1), (t!"method", .str t!"ping")]
     (serveStreamable (demoCfg .stateless) demoReg {} (postOf .none false j)).2.hasResult = true ∧
-    (serveSSE demoReg (ssePostOf j)).hasResult = true ∧ (serveStdio demoReg (.json j)).messages.length = 0 := by
+    (serveSSE demoReg (ssePostOf j)).hasResult = true ∧ (serveStdio demoReg (.json j)).errorCode = some (-32600) := by
   decide +kernel
 
 /-- Outside the statement: `"id": null` is a request for stdio (answered with `"id": null`) and a notification for the HTTP
